@@ -58,6 +58,19 @@ Theorem C12_advance_total_on_boundaries : forall st rest n, valid_utf8 rest ->
     st' = advance_over st (firstn n rest).
 Proof. exact advance_ok. Qed.
 
+(* the induction step of the whole tokenizer loop: `rest` is the unread part, the location agrees
+   with the reference at its beginning; one advance!(n) on a character boundary does not panic,
+   yields a well-formed span for the skipped piece and re-establishes the situation *)
+Theorem C12_advance_keeps_invariant : forall pre rest st n,
+  valid_utf8 rest -> loc_ok (pre ++ rest) st -> l_byte st = length pre ->
+  n <= length rest -> is_char_boundary rest n = true ->
+  exists st' skipped rest',
+    advance st rest n = Some (st', skipped, rest') /\
+    rest = skipped ++ rest' /\ length skipped = n /\ valid_utf8 rest' /\
+    loc_ok (pre ++ rest) st' /\ l_byte st' = length (pre ++ skipped) /\
+    span_wf (pre ++ rest) (make_span st st').
+Proof. exact advance_keeps_invariant. Qed.
+
 Theorem C12_advance_panics_off_boundary : forall st rest n,
   is_char_boundary rest n = false -> advance st rest n = None.
 Proof. exact advance_panics. Qed.
@@ -220,6 +233,7 @@ Proof. exact valid_utf8b_ok. Qed.
 Print Assumptions C12_token_span_step.
 Print Assumptions C12_token_span_wf.
 Print Assumptions C12_advance_total_on_boundaries.
+Print Assumptions C12_advance_keeps_invariant.
 Print Assumptions C12_expand_preserves_wf.
 Print Assumptions C12_eoi_span_wf.
 Print Assumptions C12_eoi_unpatched_refuted.
